@@ -395,3 +395,62 @@ theorem majorityJudgmentPlus_scale (cfg : Cfg) (hcfg : ScaleFreeCfg cfg) (k : Na
       rw [h1, mjRest_plus_scale k hk]
 
 end VL.Scale
+
+namespace VL.Scale
+open VL VL.Score
+
+/-! ### Majority judgment with the DEFAULT tie-break: scale invariant exactly as long as the tie-break is not entered -/
+
+/-- the medians decide all `n` places: the last place of `get_n_best(medians, n)` is not a tie object
+    (refusals of the aggregation count as decided: they are the same refusals at every scale) -/
+def mjUntied (cfg : Cfg) (votes : SProfile) (n : Nat) : Bool :=
+  match correctedScores { cfg with fn := .medianLow } votes with
+  | .error _ => true
+  | .ok corrected =>
+    match aggregate .medianLow corrected with
+    | .error _ => true
+    | .ok agg =>
+      match (getNBest agg n).getLast? with
+      | some (Slot.tie _) => false
+      | _ => true
+
+theorem mjRest_untied (tb : TieBreaking) (c1 c2 : ScoreTable) (agg : Votes) (n : Nat)
+    (h : ∀ T, (getNBest agg n).getLast? ≠ some (Slot.tie T)) : mjRest tb c1 agg n = mjRest tb c2 agg n := by
+  unfold mjRest
+  dsimp only
+  cases hl : (getNBest agg n).getLast? with
+  | none => rfl
+  | some s =>
+    cases s with
+    | cand c => rfl
+    | tie T => exact absurd hl (h T)
+
+/-- MajorityJudgment (either tie-break) when the medians decide every place -/
+theorem majorityJudgment_untied_scale (tb : TieBreaking) (cfg : Cfg) (hcfg : ScaleFreeCfg cfg) (k : Nat) (hk : 0 < k)
+    (votes : SProfile) (n : Nat) (hu : mjUntied cfg votes n = true) :
+    majorityJudgment tb cfg (scaleS k votes) n = majorityJudgment tb cfg votes n := by
+  have hcfg' : ScaleFreeCfg { cfg with fn := .medianLow } := hcfg
+  rw [majorityJudgment_eq, majorityJudgment_eq, correctedScores_scale _ hcfg' k hk]
+  unfold mjUntied at hu
+  cases hc : correctedScores { cfg with fn := .medianLow } votes with
+  | error e => rfl
+  | ok corrected =>
+    rw [hc] at hu
+    dsimp only at hu
+    show (aggregate .medianLow (scaleTab k corrected)).bind _ = (aggregate .medianLow corrected).bind _
+    rw [aggregate_scale .medianLow k hk]
+    cases ha : aggregate .medianLow corrected with
+    | error e => rfl
+    | ok agg =>
+      rw [ha] at hu
+      dsimp only at hu
+      have h1 : scaleVotes (aggFactor .medianLow k) agg = agg := by
+        unfold scaleVotes aggFactor; simp
+      show mjRest tb (scaleTab k corrected) (scaleVotes (aggFactor .medianLow k) agg) n = mjRest tb corrected agg n
+      rw [h1]
+      apply mjRest_untied
+      intro T hT
+      rw [hT] at hu
+      exact Bool.false_ne_true hu
+
+end VL.Scale
